@@ -31,6 +31,9 @@ def SmallOp : Op → Prop
   | .seek (.current i) => -(2^62 : Int) < i ∧ i < 2^62
   | .setPos n => n < 2^62
   | .flush => True
+  | .readToEnd => True
+  | .readExact _ => True
+  | .writeAll b => b.length < 2^62
 
 theorem R_init (al : Nat) : R al ACur.init SCur.init :=
   ⟨rfl, rfl, fun i => by simp [ACur.init, SCur.init], Nat.le_refl _, ⟨0, by simp [ACur.init]⟩⟩
@@ -62,79 +65,94 @@ theorem padded_length (buf : B) (pos : Nat) :
   · simp [zeros]; omega
   · omega
 
+/-- `write`: same result, related states. -/
+theorem write_refines (al : Nat) (hal : 0 < al) (a : ACur) (s : SCur) (b : B)
+    (hR : R al a s) (hg : Guard s) (ho : b.length < 2^62) :
+    (a.write al b).2 = (s.write b).2 ∧ (a.write al b).2 = .wrote b.length ∧ R al (a.write al b).1 (s.write b).1 := by
+  obtain ⟨hpos, hlen, hdata, hcap, hunits⟩ := hR
+  obtain ⟨hg1, hg2⟩ := hg
+  have hmin : min b.length (usizeMax - a.pos) = b.length := by
+    unfold usizeMax; rw [hpos]; omega
+  simp only [ACur.write, SCur.write, hmin]
+  have h1 : ¬ (b.length ≠ 0 ∧ b.length = 0) := by omega
+  rw [if_neg h1, if_neg (Nat.lt_irrefl _)]
+  refine ⟨rfl, rfl, ?_⟩
+  have hvl := padded_length s.buf s.pos
+  refine ⟨by simp [hpos], ?_, ?_, ?_, ?_⟩
+  · simp only [List.length_append, List.length_take, List.length_drop, hvl, hlen, hpos]; omega
+  · intro i
+    simp only []
+    rw [hpos]
+    by_cases h1 : i < s.pos
+    · have : ¬ (s.pos ≤ i ∧ i < s.pos + b.length) := by omega
+      rw [if_neg this, List.append_assoc, List.getElem?_append_left (by simp [hvl]; omega)]
+      rw [List.getElem?_take_of_lt h1, padded_get]; exact hdata i
+    · by_cases h2 : i < s.pos + b.length
+      · rw [if_pos ⟨by omega, h2⟩]
+        rw [List.append_assoc, List.getElem?_append_right (by simp [hvl]; omega)]
+        have hl : (List.take s.pos (if s.pos > s.buf.length then s.buf ++ zeros (s.pos - s.buf.length) else s.buf)).length = s.pos := by
+          simp [hvl]; omega
+        rw [hl, List.getElem?_append_left (by omega)]
+        simp [List.getD_eq_getElem?_getD]
+      · have : ¬ (s.pos ≤ i ∧ i < s.pos + b.length) := by omega
+        rw [if_neg this]
+        have hl : (List.take s.pos (if s.pos > s.buf.length then s.buf ++ zeros (s.pos - s.buf.length) else s.buf) ++ b).length = s.pos + b.length := by
+          simp [hvl]; omega
+        rw [List.getElem?_append_right (by omega), hl, List.getElem?_drop]
+        have : s.pos + b.length + (i - (s.pos + b.length)) = i := by omega
+        rw [this, padded_get]; exact hdata i
+  · simp only []
+    split
+    · have := ceilDiv_mul_ge (a.pos + b.length) al hal
+      omega
+    · omega
+  · simp only []
+    split
+    · exact ⟨ceilDiv (a.pos + b.length) al, Nat.mul_comm _ _⟩
+    · exact hunits
+
+/-- `read`: same bytes, related states. -/
+theorem read_refines (al : Nat) (a : ACur) (s : SCur) (n : Nat) (hR : R al a s) :
+    (a.read n).2 = (s.read n).2 ∧ R al (a.read n).1 (s.read n).1 := by
+  obtain ⟨hpos, hlen, hdata, hcap, hunits⟩ := hR
+  simp only [ACur.read, SCur.read]
+  by_cases hp : a.pos ≥ a.len
+  · rw [if_pos hp]
+    have h0 : (s.buf.drop (min s.pos s.buf.length)).length = 0 := by
+      simp; omega
+    have hnil : s.buf.drop (min s.pos s.buf.length) = [] := List.eq_nil_of_length_eq_zero h0
+    simp only [hnil, List.length_nil, Nat.min_zero, List.take_nil, Nat.add_zero]
+    exact ⟨trivial, ⟨hpos, hlen, hdata, hcap, hunits⟩⟩
+  · rw [if_neg hp]
+    have hmin : min s.pos s.buf.length = s.pos := by omega
+    have hk : min n (s.buf.drop s.pos).length = min n (a.len - a.pos) := by simp; omega
+    simp only [hmin, hk]
+    refine ⟨?_, ⟨by simp [hpos], hlen, hdata, hcap, hunits⟩⟩
+    congr 1
+    apply List.ext_getElem?
+    intro i
+    by_cases hi : i < min n (a.len - a.pos)
+    · rw [List.getElem?_map, List.getElem?_range hi, List.getElem?_take_of_lt hi, List.getElem?_drop]
+      simp only [Option.map_some]
+      rw [hdata, hpos]
+      have : s.pos + i < s.buf.length := by omega
+      rw [List.getElem?_eq_getElem this]; simp
+    · rw [List.getElem?_eq_none (by simp; omega), List.getElem?_eq_none (by simp; omega)]
+
 /-- **One step**: same output, related states. -/
 theorem step_refines (al : Nat) (hal : 0 < al) (a : ACur) (s : SCur) (op : Op)
     (hR : R al a s) (hg : Guard s) (ho : SmallOp op) :
     (a.step al op).2 = (s.step op).2 ∧ R al (a.step al op).1 (s.step op).1 := by
+  have hR0 := hR
   obtain ⟨hpos, hlen, hdata, hcap, hunits⟩ := hR
-  obtain ⟨hg1, hg2⟩ := hg
   cases op with
   | write b =>
     simp only [SmallOp] at ho
-    have hmin : min b.length (usizeMax - a.pos) = b.length := by
-      unfold usizeMax; rw [hpos]; omega
-    simp only [ACur.step, SCur.step, hmin]
-    have h1 : ¬ (b.length ≠ 0 ∧ b.length = 0) := by omega
-    rw [if_neg h1, if_neg (Nat.lt_irrefl _)]
-    refine ⟨rfl, ?_⟩
-    have hvl := padded_length s.buf s.pos
-    refine ⟨by simp [hpos], ?_, ?_, ?_, ?_⟩
-    · simp only [List.length_append, List.length_take, List.length_drop, hvl, hlen, hpos]; omega
-    · intro i
-      simp only []
-      rw [hpos]
-      by_cases h1 : i < s.pos
-      · have : ¬ (s.pos ≤ i ∧ i < s.pos + b.length) := by omega
-        rw [if_neg this, List.append_assoc, List.getElem?_append_left (by simp [hvl]; omega)]
-        rw [List.getElem?_take_of_lt h1, padded_get]; exact hdata i
-      · by_cases h2 : i < s.pos + b.length
-        · rw [if_pos ⟨by omega, h2⟩]
-          rw [List.append_assoc, List.getElem?_append_right (by simp [hvl]; omega)]
-          have hl : (List.take s.pos (if s.pos > s.buf.length then s.buf ++ zeros (s.pos - s.buf.length) else s.buf)).length = s.pos := by
-            simp [hvl]; omega
-          rw [hl, List.getElem?_append_left (by omega)]
-          simp [List.getD_eq_getElem?_getD]
-        · have : ¬ (s.pos ≤ i ∧ i < s.pos + b.length) := by omega
-          rw [if_neg this]
-          have hl : (List.take s.pos (if s.pos > s.buf.length then s.buf ++ zeros (s.pos - s.buf.length) else s.buf) ++ b).length = s.pos + b.length := by
-            simp [hvl]; omega
-          rw [List.getElem?_append_right (by omega), hl, List.getElem?_drop]
-          have : s.pos + b.length + (i - (s.pos + b.length)) = i := by omega
-          rw [this, padded_get]; exact hdata i
-    · simp only []
-      split
-      · have := ceilDiv_mul_ge (a.pos + b.length) al hal
-        omega
-      · omega
-    · simp only []
-      split
-      · exact ⟨ceilDiv (a.pos + b.length) al, Nat.mul_comm _ _⟩
-      · exact hunits
-  | read n =>
-    simp only [ACur.step, SCur.step]
-    by_cases hp : a.pos ≥ a.len
-    · rw [if_pos hp]
-      have h0 : (s.buf.drop (min s.pos s.buf.length)).length = 0 := by
-        simp; omega
-      have hnil : s.buf.drop (min s.pos s.buf.length) = [] := List.eq_nil_of_length_eq_zero h0
-      simp only [hnil, List.length_nil, Nat.min_zero, List.take_nil, Nat.add_zero]
-      exact ⟨trivial, ⟨hpos, hlen, hdata, hcap, hunits⟩⟩
-    · rw [if_neg hp]
-      have hmin : min s.pos s.buf.length = s.pos := by omega
-      have hk : min n (s.buf.drop s.pos).length = min n (a.len - a.pos) := by simp; omega
-      simp only [hmin, hk]
-      refine ⟨?_, ⟨by simp [hpos], hlen, hdata, hcap, hunits⟩⟩
-      congr 1
-      apply List.ext_getElem?
-      intro i
-      by_cases hi : i < min n (a.len - a.pos)
-      · rw [List.getElem?_map, List.getElem?_range hi, List.getElem?_take_of_lt hi, List.getElem?_drop]
-        simp only [Option.map_some]
-        rw [hdata, hpos]
-        have : s.pos + i < s.buf.length := by omega
-        rw [List.getElem?_eq_getElem this]; simp
-      · rw [List.getElem?_eq_none (by simp; omega), List.getElem?_eq_none (by simp; omega)]
+    obtain ⟨h1, _, h3⟩ := write_refines al hal a s b hR0 hg ho
+    exact ⟨h1, h3⟩
+  | read n => exact read_refines al a s n hR0
   | seek sk =>
+    obtain ⟨hg1, hg2⟩ := hg
     cases sk with
     | start n =>
       simp only [SmallOp] at ho
@@ -154,6 +172,23 @@ theorem step_refines (al : Nat) (hal : 0 < al) (a : ACur) (s : SCur) (op : Op)
       | some m => dsimp only; exact ⟨rfl, ⟨rfl, hlen, hdata, hcap, hunits⟩⟩
   | setPos n => exact ⟨rfl, ⟨rfl, hlen, hdata, hcap, hunits⟩⟩
   | flush => exact ⟨rfl, ⟨hpos, hlen, hdata, hcap, hunits⟩⟩
+  | readToEnd =>
+    simp only [ACur.step, SCur.step, hpos, hlen]
+    exact read_refines al a s _ hR0
+  | readExact n =>
+    simp only [ACur.step, SCur.step, hpos, hlen]
+    split
+    · exact read_refines al a s n hR0
+    · exact ⟨rfl, ⟨rfl, rfl, hdata, hlen ▸ hcap, hunits⟩⟩
+  | writeAll b =>
+    simp only [SmallOp] at ho
+    obtain ⟨h1, h2, h3⟩ := write_refines al hal a s b hR0 hg ho
+    simp only [ACur.step, SCur.step]
+    generalize hw : a.write al b = w at h2 h3
+    obtain ⟨a', o⟩ := w
+    simp only at h2 h3
+    subst h2
+    exact ⟨rfl, h3⟩
 
 /-- the guard holds at every state the specification goes through -/
 def GuardAlong (s : SCur) : List Op → Prop
@@ -206,10 +241,33 @@ theorem gap_zero_filled (al : Nat) (hal : 0 < al) (p : Nat) (b : B) (hp : p < 2^
     refine ⟨⟨by simp [SCur.init], by simp [SCur.init]⟩, hp, ⟨by simpa [SCur.step, SCur.init] using hp, by simp [SCur.step, SCur.init]⟩, hb, trivial⟩
   have := (cursor_refines al hal _ hg).2.1
   rw [this]
-  simp only [SCur.run, SCur.step, SCur.init]
+  simp only [SCur.run, SCur.step, SCur.write, SCur.init]
   by_cases h0 : p = 0
   · subst h0; simp [zeros]
   · have hp0 : 0 < p := by omega
     simp [zeros, hp0]
+
+/-- The two corners in which the provided methods of `Read` / `Write` would differ from the standard cursor (and did,
+    before `5b3f044`): a failed `read_exact` moves the position to the end of the data even from beyond it, and
+    `write_all` of nothing still fills the gap up to the position. -/
+theorem readExact_eof_moves_to_end (al : Nat) (a : ACur) (n : Nat) (h : a.len - a.pos < n) :
+    a.step al (.readExact n) = ({ a with pos := a.len }, .eof) := by
+  have : ¬ n ≤ a.len - a.pos := by omega
+  simp [ACur.step, this]
+
+theorem writeAll_empty_fills_gap (al : Nat) (hal : 0 < al) (p : Nat) (hp : p < 2^62) :
+    (ACur.run al ACur.init [.setPos p, .writeAll []]).1.asBytes = zeros p := by
+  have hg : GuardAlong SCur.init [.setPos p, .writeAll []] := by
+    refine ⟨⟨by simp [SCur.init], by simp [SCur.init]⟩, hp, ⟨by simpa [SCur.step, SCur.init] using hp, by simp [SCur.step, SCur.init]⟩, by simp [SmallOp], trivial⟩
+  have := (cursor_refines al hal _ hg).2.1
+  rw [this]
+  simp only [SCur.run, SCur.step, SCur.write, SCur.init]
+  by_cases h0 : p = 0
+  · subst h0; simp [zeros]
+  · have hp0 : 0 < p := by omega
+    simp [zeros, hp0]
+
+example : (ACur.run 16 ACur.init [.write [1, 2, 3], .setPos 9, .readExact 1, .writeAll [], .setPos 1, .readToEnd]).2 =
+    [.wrote 3, .unit, .eof, .unit, .unit, .bytes [2, 3]] := by decide
 
 end Eps.C19
